@@ -66,7 +66,8 @@ PY = "/venv/bin/python"
 # Genuine defects found by this check and not yet decided (fix in /repo or record in known_findings.json).
 # clause name -> what fails.  The clause names are the hypotheses of the Lean theorems
 # (C18.C18_leaves_partial) and the `clause` field of the fresh-interpreter reports.
-PROVISIONAL_KNOWN = {
+PROVISIONAL_KNOWN = {}   # decided: recorded in /verif/known_findings.json
+_FORMERLY_PROVISIONAL = {
     "first-instance-representative":
         "the registry `_dynamic` of a (parametrised) class is fixed by its FIRST instance: `A[i0:i1, :]` and "
         "`A[index_array, :]` are both of class `Sliced[]`; whichever is built first decides whether `slices` is a "
@@ -1249,7 +1250,7 @@ def part_bc(ctx, cov, specs=None):
     if known_hits:
         clause = "first-instance-representative"
         spec0, it0 = known_hits[0]
-        what = (known.get(clause) or {}).get("what") or PROVISIONAL_KNOWN[clause]
+        what = (known.get(clause) or {}).get("what") or "(not recorded)"
         if clause in known or clause in PROVISIONAL_KNOWN:
             common.known_finding(ctx, clause, f"{what} [e.g. {it0['op']} ({it0['class']}): {it0['attr_mismatch'][0]} in construction order "
                                              f"pre={spec0.get('pre')} order={spec0.get('order')[:4]}...]")
